@@ -85,7 +85,8 @@ class EqvDomain(EventsMixin, Domain):
     t = a[0] if a[0] == b[0] else worst_tr([a, b]) if 'Inv' not in (
         a[0], b[0]) or a[0] in ('Dep', 'Unk') or b[0] in ('Dep', 'Unk') \
         else (a[0] if a[0] != 'Inv' else b[0])
-    p = a[1] if a[1] == b[1] else 'X'
+    p = a[1] if a[1] == b[1] else (
+        'B' if {a[1], b[1]} & {'B', ('S', 'mix')} else 'X')
     return (t, p)
 
   def param(self, func, name, index):
